@@ -381,6 +381,9 @@ def r6_group_boundaries_and_filter(ctx):
     ctx.ob(fd.where, "exactly the names rejected by the filter are ignored", ok, u(ig[0]) if ig else "", key="C12-R6|filter-applied")
 
 
+from ..through_time import make_rule as _mk_tt
+_through_time = _mk_tt("C12")
+
 RULES = [
     ("C12-R1", r1_pending_group),
     ("C12-R2", r2_every_contig_gets_a_buffer),
@@ -389,4 +392,5 @@ RULES = [
     ("C12-R5", r5_order_equals_sizes),
     ("C12-R6", r6_group_boundaries_and_filter),
     ("C12-R7", _similarity_streams),
+    ("C12-T1", _through_time),
 ]
